@@ -215,15 +215,18 @@ def _bmc_jobs(tier):
     return jobs
 
 
-def h_receiver_pli(ctx, npk, cap, empty_at=None):
+def h_receiver_pli(ctx, npk, cap, empty_at=None, rtx=False):
     """The key-frame request reaches the wire: whenever JitterBuffer.add signals pli=True inside
     RTCRtpReceiver._handle_rtp_packet, that call sends a PLI (also when the same add() releases
     a frame)."""
     from aiortc.codecs.vpx import Vp8Encoder
 
-    from .c11_nackrtx import SSRC, _mk_receiver
+    from aiortc.rtp import wrap_rtx
 
-    r = _mk_receiver(False)
+    from .c11_nackrtx import RTX_SSRC, SSRC, _mk_receiver
+
+    r = _mk_receiver(rtx)
+    via_rtx = ctx.choice("packet_arriving_as_a_retransmission", list(range(npk))) if rtx else None
     jb = JitterBuffer(capacity=cap, is_video=True)
     r._RTCRtpReceiver__jitter_buffer = jb
     flags, plis = [], []
@@ -250,6 +253,8 @@ def h_receiver_pli(ctx, npk, cap, empty_at=None):
         p = RtpPacket(payload_type=96, sequence_number=(origin + off) & M16, timestamp=(1000 + 90 * off) & 0xFFFFFFFF, ssrc=SSRC, marker=1)
         p.payload = b"" if i == empty_at else Vp8Encoder._packetize(bytes([0xC0 + i] * 3), 100 + i)[0]  # (padding-only packet)
         f0, n0 = len(flags), len(plis)
+        if i == via_rtx:
+            p = wrap_rtx(p, payload_type=97, sequence_number=500 + i, ssrc=RTX_SSRC)
         sx.run(r._handle_rtp_packet(p, arrival_time_ms=10 * i))
         ctx.reach("receiver-handled")
         ctx.check(len(flags) == f0 + 1, "every-media-packet-reaches-the-jitter-buffer", "packet %d%s" % (i, " (empty payload)" if i == empty_at else ""))
@@ -259,6 +264,7 @@ def h_receiver_pli(ctx, npk, cap, empty_at=None):
                 if frame is not None:
                     both = True
                 ctx.check(len(plis) > n0, "receiver-sends-pli-when-the-buffer-signals", "frame released in the same call: %s" % (frame is not None))
+                ctx.check(all(x == SSRC for x in plis[n0:]), "pli-names-the-media-ssrc", "packet %d%s: %r" % (i, " (arrived as RTX)" if i == via_rtx else "", plis[n0:]))
             else:
                 ctx.check(len(plis) == n0, "no-pli-without-signal")
     ctx.observe("plis", len(plis))
@@ -277,9 +283,9 @@ HARNESSES = {
     "receiver-pli": Harness(
         "receiver-pli",
         h_receiver_pli,
-        lambda tier: [{"npk": n, "cap": 4} for n in ((4,) if tier == "quick" else (4, 5))] + [{"npk": 3, "cap": 4, "empty_at": 1}],
+        lambda tier: [{"npk": n, "cap": 4} for n in ((4,) if tier == "quick" else (4, 5))] + [{"npk": 3, "cap": 4, "empty_at": 1}, {"npk": 3, "cap": 4, "rtx": True}],
         style="BMC",
-        bounds="real RTCRtpReceiver._handle_rtp_packet with a capacity-4 video jitter buffer; 4 (quick) / 4..5 single-packet VP8 frames at offsets 0..6 from a symbolic 16-bit origin, any order",
+        bounds="real RTCRtpReceiver._handle_rtp_packet with a capacity-4 video jitter buffer; 4 (quick) / 4..5 single-packet VP8 frames at offsets 0..6 from a symbolic 16-bit origin, any order; plus 3 packets one of which (solver-chosen) arrives wrapped in RTX on the retransmission SSRC",
         encoded=ENC + ["aiortc.rtcrtpreceiver:RTCRtpReceiver._handle_rtp_packet"],
         stubs=["RTCP sending (_send_rtcp_pli/_send_rtcp_nack) recorded instead of serialised; decoder thread replaced by a queue; bandwidth estimator stubbed"],
         outside=["capacity 128 as deployed"],
